@@ -19,6 +19,8 @@ func Wd(p unsafe.Pointer, size uintptr, site int32) struct{}       { return stru
 func RP(p unsafe.Pointer, size uintptr, site int32) unsafe.Pointer { return p }
 func WM(m interface{}, site int32)                                 {}
 func RM(m interface{}, site int32) interface{}                     { return m }
+func WS(x interface{}, site int32) interface{}                     { return x }
+func RS(x interface{}, site int32) interface{}                     { return x }
 
 type tryLocker interface {
 	Lock()
